@@ -152,7 +152,7 @@ pub fn kind_banks(kind: &Kind, seed: u64) -> (u32, BankList) {
             for k in 0..*n {
                 avs.push(match pattern {
                     // radial line: same wire, successive times (exactly collinear in x-y)
-                    0 => Av { wire: w0, bin: 5 + 4 * k, z: z0 + 0.002 * k as f64, wire_amp: 80.0, pad_amp: 900.0 },
+                    0 => Av { wire: w0, bin: (5 + 4 * k) % 290, z: z0 + 0.002 * k as f64, wire_amp: 80.0, pad_amp: 900.0 },
                     // same time on many wires (equal radii: a circle arc around the axis)
                     1 => Av { wire: (w0 + k) % 256, bin: 100, z: z0, wire_amp: 80.0, pad_amp: 900.0 },
                     // repeated identical points
@@ -162,9 +162,9 @@ pub fn kind_banks(kind: &Kind, seed: u64) -> (u32, BankList) {
                     // vertical line: same wire, same time, many z
                     4 => Av { wire: w0, bin: 120, z: -1.1 + 2.2 * k as f64 / *n as f64, wire_amp: 80.0, pad_amp: 900.0 },
                     // seam-straddling block
-                    5 => Av { wire: (250 + k % 12) % 256, bin: 20 + 3 * k, z: z0 + 0.003 * k as f64, wire_amp: 80.0, pad_amp: 900.0 },
+                    5 => Av { wire: (250 + k % 12) % 256, bin: (20 + 3 * k) % 290, z: z0 + 0.003 * k as f64, wire_amp: 80.0, pad_amp: 900.0 },
                     // two crossing lines
-                    6 => Av { wire: (w0 + if k % 2 == 0 { k / 2 } else { 256 - k / 2 }) % 256, bin: 10 + 6 * (k / 2), z: z0, wire_amp: 80.0, pad_amp: 900.0 },
+                    6 => Av { wire: (w0 + if k % 2 == 0 { (k / 2) % 256 } else { 256 - (k / 2) % 256 }) % 256, bin: (10 + 6 * (k / 2)) % 290, z: z0, wire_amp: 80.0, pad_amp: 900.0 },
                     // random cloud
                     _ => Av { wire: r.usize(0, 255), bin: r.usize(0, 280), z: r.f64_range(-1.15, 1.15), wire_amp: r.f64_range(5.0, 300.0), pad_amp: r.f64_range(50.0, 2500.0) },
                 });
